@@ -25,6 +25,11 @@ namespace micm
     RosenbrockTemporaryVariables& operator=(RosenbrockTemporaryVariables&& other) = default;
     ~RosenbrockTemporaryVariables() = default;
 
+    std::unique_ptr<TemporaryVariables> Clone() const override
+    {
+      return std::make_unique<RosenbrockTemporaryVariables>(*this);
+    }
+
     RosenbrockTemporaryVariables(const auto& state_parameters, const auto& solver_parameters)
         : Ynew_(state_parameters.number_of_grid_cells_, state_parameters.number_of_species_),
           initial_forcing_(state_parameters.number_of_grid_cells_, state_parameters.number_of_species_),
